@@ -10,6 +10,10 @@
 (*   cache  tile -> <<mtime in ticks (-1: absent), version>> read back     *)
 (*          through a fresh cache object                                   *)
 (*   delta  upstream requests made by this action: <<unit, ok>>            *)
+(*   vc     1: every version of the upstream has a picture of its own;     *)
+(*          2: versions 2k and 2k + 1 have the same picture (a refresh     *)
+(*          often brings the picture that is stored already) - the         *)
+(*          versions read from pictures are the odd one of the two         *)
 (* The batch is a JSON array of traces; acceptance = every trace consumed  *)
 (* to its end (POSTCONDITION); the action properties of Expiry are         *)
 (* evaluated on every recorded step (PROPERTY lines of the cfg).           *)
@@ -26,11 +30,13 @@ Tr == Batch[tid]
 E  == Tr[l]
 Max(a, b) == IF a > b THEN a ELSE b
 RuleOf(j) == [kind |-> j.kind, arg |-> j.arg]
+Rep(v) == IF E.vc = 2 /\ v > 0 THEN (v \div 2) * 2 + 1 ELSE v
 
 TraceInit == Init /\ tid \in 1 .. NTraces /\ l = 1
 
 Op ==
-  \/ E.op = "request" /\ Request(E.tiles) /\ reply'.kind = E.kind /\ reply'.served = E.served
+  \/ E.op = "request" /\ Request(E.tiles) /\ reply'.kind = E.kind
+     /\ [i \in DOMAIN reply'.served |-> Rep(reply'.served[i])] = E.served
   \/ E.op = "seed"    /\ SeedRefresh(RuleOf(E.rule))
   \/ E.op = "tick"    /\ Tick(E.d)
   \/ E.op = "touch"   /\ TouchThresholdFile
@@ -41,7 +47,7 @@ Op ==
   \/ E.op = "backdate" /\ Backdate(E.tile)
 
 ObsOK ==
-  /\ \A t \in Tiles : cache'[t].m = E.cache[t][1] /\ cache'[t].v = E.cache[t][2]
+  /\ \A t \in Tiles : cache'[t].m = E.cache[t][1] /\ Rep(cache'[t].v) = E.cache[t][2]
   /\ Len(log') = Len(log) + Len(E.delta)
   /\ \A i \in 1 .. Len(E.delta) : log'[Len(log) + i].u = E.delta[i][1] /\ log'[Len(log) + i].ok = E.delta[i][2]
 
